@@ -3745,6 +3745,16 @@ impl KotoVm {
                     format!("{:E}", f64::from(n))
                 }
                 (_, Some(representation)) => {
+                    // b, o, x and X are only defined for integers:
+                    // a float that isn't an integer value would silently be printed as another number
+                    if let KNumber::F64(f) = n
+                        && (f.fract() != 0.0
+                            || !(-9223372036854775808.0..9223372036854775808.0).contains(&f))
+                    {
+                        return runtime_error!(
+                            "the '{representation:?}' representation is only supported for integers"
+                        );
+                    }
                     let n = i64::from(n);
                     match representation {
                         StringFormatRepresentation::Debug => format!("{n:?}"),
